@@ -38,13 +38,21 @@ template <class X> void run(Ctx& c, const Str& s, unsigned mask, int opKind, int
         // The operation ran out of memory half way (source text still mapped read-only: a store traps). Whatever state the URI is in,
         // caller-supplied text must neither have been written nor handed to the manager's free function, now or by the cleanup.
         c.count("owner_op_faulted"); what += fmt(" allocation #%d%s failed", faultAt, faultFrom ? " and all later ones" : "");
-        { LibScope ls; X::FreeUriMembersMm(&u, led.mgr()); }
-        const char* lo = (const char*)text; const char* hi = lo + nbytes; const char* bp = (const char*)led.last_bad_ptr;
-        if (led.bad_free && bp >= lo && bp < hi + (nbytes ? 0 : 1)) c.violation("C12", fmt("owner/%s/caller-text-passed-to-free-after-failed-%s", X::tag(), opKind == 0 ? "makeowner" : "normalize"), what + " " + led.bad_free_note);
-        if (reg) reg->unprotect();
-        if (memcmp(text, w.data(), nbytes) != 0) c.violation("C12", fmt("owner/%s/source-text-modified", X::tag()), what);
-        led.release_all(); if (reg) delete reg; else free(text);
-        return;
+        // half of the time the caller gives up and cleans up; otherwise it tries the same operation again on the same object (memory is
+        // available now) -- if that succeeds, the object must be as independent of its source as after a first-time success
+        bool retry = (c.case_index >> 3) & 1; int rc2 = -1;
+        if (retry) { LibScope ls; if (opKind == 0) rc2 = X::MakeOwnerMm(&u, led.mgr()); else rc2 = X::NormalizeSyntaxExMm(&u, mask, led.mgr()); c.evaluations++; }
+        if (!(retry && rc2 == URI_SUCCESS)) {
+            { LibScope ls; X::FreeUriMembersMm(&u, led.mgr()); }
+            const char* lo = (const char*)text; const char* hi = lo + nbytes; const char* bp = (const char*)led.last_bad_ptr;
+            if (led.bad_free && bp >= lo && bp < hi + (nbytes ? 0 : 1)) c.violation("C12", fmt("owner/%s/caller-text-passed-to-free-after-failed-%s", X::tag(), opKind == 0 ? "makeowner" : "normalize"), what + " " + led.bad_free_note);
+            if (reg) reg->unprotect();
+            if (memcmp(text, w.data(), nbytes) != 0) c.violation("C12", fmt("owner/%s/source-text-modified", X::tag()), what);
+            led.release_all(); if (reg) delete reg; else free(text);
+            return;
+        }
+        c.count("owner_op_retried_after_fault"); what += ", then the same call again succeeded"; rc = rc2;
+        if (opKind == 0) textBefore.clear();      // what the failed attempt left behind is not specified; only independence is judged below
     }
     if (reg) reg->unprotect();
     if (memcmp(text, w.data(), nbytes) != 0) c.violation("C12", fmt("owner/%s/source-text-modified", X::tag()), what);
@@ -53,8 +61,10 @@ template <class X> void run(Ctx& c, const Str& s, unsigned mask, int opKind, int
         if (!u.owner) c.violation("C12", fmt("owner/%s/owner-flag-not-set", X::tag()), what);
         ObjView v1 = read_uri<X>(u); Str t1; to_string<X>(u, &t1);
         Str ht1 = narrow<X>(u.hostText.first, u.hostText.afterLast);
-        if (!v1.malformed.empty()) c.violation("C12", fmt("owner/%s/malformed-after-%s", X::tag(), opKind == 0 ? "makeowner" : "normalize"), what + " " + v1.malformed);
-        if (opKind == 0 && t1 != textBefore) c.violation("C12", fmt("owner/%s/content-changed-by-makeowner", X::tag()), what + fmt(" before=\"%s\" after=\"%s\"", esc(textBefore).c_str(), esc(t1).c_str()));
+        // (after a failed attempt the content of the object is unspecified -- e.g. the host text reverted to NULL while the address block
+        //  stays -- so the structural check is only made for first-time successes; independence of the source is judged in both cases)
+        if (!v1.malformed.empty() && !faulted) c.violation("C12", fmt("owner/%s/malformed-after-%s", X::tag(), opKind == 0 ? "makeowner" : "normalize"), what + " " + v1.malformed);
+        if (opKind == 0 && !textBefore.empty() && t1 != textBefore) c.violation("C12", fmt("owner/%s/content-changed-by-makeowner", X::tag()), what + fmt(" before=\"%s\" after=\"%s\"", esc(textBefore).c_str(), esc(t1).c_str()));
         // (a) overwrite the source with a different pattern
         c.stage(3);
         for (size_t i = 0; i < w.size(); i++) text[i] = X::wid((unsigned char)('!' + (i % 7)));
